@@ -322,4 +322,161 @@ example : vecLoad (V := Int) val 0 [9, 9, 9] ((remoraVec val).enc [4]) = some ([
 
 end tokens
 
+/-! ### object sharing inside one archive (what `Data`'s shared_ptr batches rely on) -/
+
+section sharing
+open Archive
+variable {V B T : Type}
+
+theorem indexOf_append_mem (a : Nat) (s t : List Nat) (h : a ∈ s) : indexOf a (s ++ t) = indexOf a s := by
+  induction s with
+  | nil => simp at h
+  | cons b s ih =>
+    simp only [List.cons_append, indexOf]
+    by_cases hb : b = a
+    · simp [hb]
+    · simp only [hb, ↓reduceIte]
+      rcases List.mem_cons.mp h with h' | h'
+      · exact absurd h'.symm hb
+      · rw [ih h']
+
+theorem indexOf_append_new (a : Nat) (s : List Nat) (h : a ∉ s) : indexOf a (s ++ [a]) = s.length := by
+  induction s with
+  | nil => simp [indexOf]
+  | cons b s ih =>
+    have hb : b ≠ a := fun e => h (by simp [e])
+    have hs : a ∉ s := fun e => h (List.mem_cons_of_mem _ e)
+    simp [indexOf, hb, ih hs]
+
+theorem indexOf_lt (a : Nat) (s : List Nat) (h : a ∈ s) : indexOf a s < s.length := by
+  induction s with
+  | nil => simp at h
+  | cons b s ih =>
+    simp only [indexOf, List.length_cons]
+    by_cases hb : b = a
+    · simp [hb]
+    · simp only [hb, ↓reduceIte]
+      rcases List.mem_cons.mp h with h' | h'
+      · exact absurd h'.symm hb
+      · have := ih h'; omega
+
+/-- writing more pointers only appends to the table of written addresses -/
+theorem seenAfter_prefix (r s : List Nat) : ∃ t, seenAfter r s = s ++ t := by
+  induction r generalizing s with
+  | nil => exact ⟨[], by simp [seenAfter]⟩
+  | cons a r ih =>
+    simp only [seenAfter]
+    by_cases h : a ∈ s
+    · simp only [h, ↓reduceIte]; exact ih s
+    · simp only [h, ↓reduceIte]
+      obtain ⟨t, ht⟩ := ih (s ++ [a])
+      exact ⟨[a] ++ t, by rw [ht, List.append_assoc]⟩
+
+/-- ids are stable: an address that was written keeps its id whatever is written later -/
+theorem indexOf_seenAfter (a : Nat) (r s : List Nat) (h : a ∈ s) : indexOf a (seenAfter r s) = indexOf a s := by
+  obtain ⟨t, ht⟩ := seenAfter_prefix r s
+  rw [ht, indexOf_append_mem a s t h]
+
+/-- **round trip of a pointer sequence with sharing**: for every sequence of addresses (repetitions =
+shared objects, in any pattern), every heap, every table `s` of objects written before: reading resolves
+every pointer to the id of its address, loads every distinct object exactly once, and leaves the rest -/
+theorem readPtrs_writePtrs (c : Codec V B) (deref : Nat → B) (refs s : List Nat) (rest : List (Archive.Tok V)) :
+    readPtrs c refs.length (s.map deref) (writePtrs c deref refs s ++ rest)
+      = some (refs.map (indexOf · (seenAfter refs s)), (seenAfter refs s).map deref, rest) := by
+  induction refs generalizing s with
+  | nil => simp [readPtrs, writePtrs, seenAfter]
+  | cons a r ih =>
+    by_cases h : a ∈ s
+    · have hlt : indexOf a s < (s.map deref).length := by simpa using indexOf_lt a s h
+      simp only [writePtrs, h, ↓reduceIte, List.cons_append, List.length_cons, readPtrs, hlt, ih s, seenAfter,
+        List.map_cons, indexOf_seenAfter a r s h]
+    · have hl : s.length = (s.map deref).length := by simp
+      have hm : (s ++ [a]).map deref = s.map deref ++ [deref a] := by simp
+      have hi : indexOf a (seenAfter r (s ++ [a])) = s.length := by
+        rw [indexOf_seenAfter a r (s ++ [a]) (by simp), indexOf_append_new a s h]
+      have := ih (s ++ [a])
+      rw [hm] at this
+      simp only [writePtrs, h, ↓reduceIte, List.cons_append, List.append_assoc, List.length_cons, readPtrs, hl,
+        c.law, this, seenAfter, List.map_cons, hi]
+
+/-- the restored pointers dereference to the original objects: VALUES are preserved -/
+theorem shared_values (deref : Nat → B) (refs s : List Nat) (a : Nat) (ha : a ∈ refs) :
+    ((seenAfter refs s).map deref)[indexOf a (seenAfter refs s)]? = some (deref a) := by
+  have hmem : ∀ (r s : List Nat), a ∈ r → a ∈ seenAfter r s := by
+    intro r
+    induction r with
+    | nil => intro s h; simp at h
+    | cons b r ih =>
+      intro s h
+      simp only [seenAfter]
+      rcases List.mem_cons.mp h with h' | h'
+      · subst h'
+        obtain ⟨t, ht⟩ := seenAfter_prefix r (if a ∈ s then s else s ++ [a])
+        rw [ht]
+        by_cases hs : a ∈ s <;> simp [hs]
+      · exact ih _ h'
+  have hget : ∀ (l : List Nat), a ∈ l → (l.map deref)[indexOf a l]? = some (deref a) := by
+    intro l
+    induction l with
+    | nil => intro h; simp at h
+    | cons b l ih =>
+      intro h
+      by_cases hb : b = a
+      · simp [indexOf, hb]
+      · rcases List.mem_cons.mp h with h' | h'
+        · exact absurd h'.symm hb
+        · simp [indexOf, hb, ih h']
+  exact hget _ (hmem refs s ha)
+
+/-- … and SHARING is preserved exactly: two restored pointers are the same object iff the originals were -/
+theorem shared_identity (refs s : List Nat) (a b : Nat) (ha : a ∈ seenAfter refs s) (hb : b ∈ seenAfter refs s) :
+    indexOf a (seenAfter refs s) = indexOf b (seenAfter refs s) ↔ a = b := by
+  have hinj : ∀ (l : List Nat), a ∈ l → b ∈ l → indexOf a l = indexOf b l → a = b := by
+    intro l
+    induction l with
+    | nil => intro h; simp at h
+    | cons x l ih =>
+      intro h1 h2 he
+      by_cases hxa : x = a <;> by_cases hxb : x = b
+      · rw [← hxa, ← hxb]
+      · subst hxa
+        have hxb' : ¬ (x = b) := hxb
+        simp only [indexOf, ↓reduceIte, hxb'] at he
+        omega
+      · subst hxb
+        have hxa' : ¬ (x = a) := hxa
+        simp only [indexOf, ↓reduceIte, hxa'] at he
+        omega
+      · simp only [indexOf, hxa, hxb, ↓reduceIte, Nat.add_right_cancel_iff] at he
+        rcases List.mem_cons.mp h1 with h | h
+        · exact absurd h.symm hxa
+        · rcases List.mem_cons.mp h2 with h' | h'
+          · exact absurd h'.symm hxb
+          · exact ih h h' he
+  exact ⟨hinj _ ha hb, fun e => by rw [e]⟩
+
+/-- **several containers in one archive** (labels = inputs, a data set and its copy, a data set appended to
+itself, two labelled sets with shared inputs — any sharing pattern, any number of containers, any batch sizes):
+`read` returns every container with its pointers resolved and every distinct batch loaded once -/
+theorem readConts_writeConts (c : Codec V B) (ct : Codec V T) (deref : Nat → B) (cs : List (List Nat × T))
+    (s : List Nat) (rest : List (Archive.Tok V)) :
+    readConts c ct cs.length (s.map deref) (writeConts c ct deref cs s ++ rest)
+      = some ((specConts cs s).1, (specConts cs s).2.map deref, rest) := by
+  induction cs generalizing s with
+  | nil => simp [readConts, writeConts, specConts]
+  | cons hd more ih =>
+    obtain ⟨refs, t⟩ := hd
+    have hp := readPtrs_writePtrs c deref refs s
+      (ct.enc t ++ (writeConts c ct deref more (seenAfter refs s) ++ rest))
+    have hm := ih (seenAfter refs s)
+    simp only [writeConts, List.cons_append, List.append_assoc, List.length_cons, readConts, hp, ct.law, hm, specConts]
+
+/-- an archive with sharing is strictly shorter than one without: the shared batch is written ONCE -/
+example : writePtrs (V := Nat) Codec.nat (fun a => a + 10) [0, 0] []
+    = [.ptr 0, .nat 10, .back 0] := by decide
+example : readPtrs (V := Nat) Codec.nat 3 [] (writePtrs Codec.nat (fun a => a + 10) [5, 7, 5] [])
+    = some ([0, 1, 0], [15, 17], []) := by decide
+
+end sharing
+
 end SharkVerif.C18
